@@ -70,6 +70,9 @@ func (f *faultCluster) GetStore(id uint64) *core.StoreInfo {
 
 type cluster struct {
 	*mockcluster.Cluster
+	rulesOn      bool
+	ctrlCancel   context.CancelFunc
+	restarts     int
 	fc           *faultCluster
 	cancel       context.CancelFunc
 	replica      *checker.ReplicaChecker
@@ -79,7 +82,33 @@ type cluster struct {
 	defaultKept  bool
 }
 
-func (c *cluster) close() { c.cancel() }
+func (c *cluster) close() {
+	if c.ctrlCancel != nil {
+		c.ctrlCancel()
+	}
+	c.cancel()
+}
+
+// restartCheckers is what a PD leader change does to the coordinator: the context of the running checker
+// controller is cancelled first, then fresh checkers and a fresh controller (empty waiting list, empty
+// caches) are built on the same cluster.
+func (c *cluster) restartCheckers(first bool) {
+	if c.ctrlCancel != nil {
+		c.ctrlCancel()
+	}
+	ctx, cancel := context.WithCancel(context.Background())
+	c.ctrlCancel = cancel
+	if c.rulesOn {
+		c.rule = checker.NewRuleChecker(c.fc, c.RuleManager, cache.NewDefaultCache(schedule.DefaultCacheSize))
+	} else {
+		c.replica = checker.NewReplicaChecker(c.fc, cache.NewDefaultCache(schedule.DefaultCacheSize))
+	}
+	oc := schedule.NewOperatorController(ctx, c.fc, nil)
+	c.controller = schedule.NewCheckerController(ctx, c.fc, c.RuleManager, oc)
+	if !first {
+		c.restarts++
+	}
+}
 
 func newCluster(w *world) (*cluster, error) {
 	clusterMu.Lock()
@@ -156,12 +185,9 @@ func newCluster(w *world) (*cluster, error) {
 				cl.defaultKept = true
 			}
 		}
-		cl.rule = checker.NewRuleChecker(fc, mc.RuleManager, cache.NewDefaultCache(schedule.DefaultCacheSize))
-	} else {
-		cl.replica = checker.NewReplicaChecker(fc, cache.NewDefaultCache(schedule.DefaultCacheSize))
 	}
-	oc := schedule.NewOperatorController(ctx, fc, nil)
-	cl.controller = schedule.NewCheckerController(ctx, fc, mc.RuleManager, oc)
+	cl.rulesOn = w.Rules != "off"
+	cl.restartCheckers(true)
 	return cl, nil
 }
 
